@@ -69,7 +69,8 @@ def run(chk):
     reviewed = load_reviewed()
     inv = {}
     from . import tapeinv
-    tinv_methods = set(tapeinv.window_methods(prog))
+    _e, _h = tapeinv.window_methods(prog, with_helpers=True)
+    tinv_methods = set(_e) | set(_h)
     n_tinv, n_lia = [0], [0]
 
     def collect(entry, rs, ignore_budget=False):
@@ -148,7 +149,7 @@ def run(chk):
                                       "%s allocates a buffer of %s bytes taken from the file without comparing it with anything first (a 4 GiB request from a 12-byte file)" % (entry, tm.show(n)))
                             chk.count("alloc-sites")
         # wrappers
-        for entry, args in (("Emulator::<H>::load_rom_binary_16k_pages", [Opaque("romset")]),):
+        for entry, args in (("Emulator::<H>::load_rom", [Opaque("romset")]),):      # the public entry; helpers are inlined
             w = ld.make_loader_walker(prog, ln, opaque=common_opaque, loop_bound=3)
             st = emu_state(w, m)
             fn = prog.fn(prog.fn_path("rustzx_core", entry))
